@@ -62,6 +62,9 @@ pub struct GenCfg {
     pub nested_functions: bool,
     /// tags inside choice lines (on the text before, inside and after the brackets)
     pub choice_tags: bool,
+    /// more source layouts: brackets without spaces, a divert at the end of a content line, stitches addressed
+    /// by their bare name from inside their knot, two conditions on a choice
+    pub layout_variants: bool,
 }
 
 impl GenCfg {
@@ -108,6 +111,7 @@ impl GenCfg {
             no_glue_with_tags: false,
             nested_functions: false,
             choice_tags: false,
+            layout_variants: false,
         }
     }
     /// everything, including the nondeterministic-looking features (for lockstep oracles)
@@ -869,6 +873,22 @@ impl<'a> Builder<'a> {
     }
 
     fn choice_text_untagged(&mut self) -> (Vec<Inline>, Option<Vec<Inline>>, Vec<Inline>) {
+        let (mut st, only, mut end) = self.choice_text_spaced();
+        if self.cfg.layout_variants && only.is_some() && self.rng.chance(1, 4) {
+            // brackets written tight against the text
+            if matches!(st.last(), Some(Inline::Text(t)) if t == " ") {
+                st.pop();
+            }
+            if let Some(Inline::Text(t)) = end.first_mut()
+                && t.starts_with(' ')
+            {
+                *t = t.trim_start().to_string();
+            }
+        }
+        (st, only, end)
+    }
+
+    fn choice_text_spaced(&mut self) -> (Vec<Inline>, Option<Vec<Inline>>, Vec<Inline>) {
         let simple = self.rng.chance(2, 3);
         // spaces are written outside the brackets ("start [only] end"), the documented layout
         match self.rng.below(5) {
@@ -907,6 +927,9 @@ impl<'a> Builder<'a> {
             let mut conds = Vec::new();
             if self.rng.chance(1, 4) && ci > 0 {
                 conds.push(self.bool_expr(1));
+                if self.cfg.layout_variants && self.rng.chance(1, 4) {
+                    conds.push(self.bool_expr(0));
+                }
             }
             let (start, choice_only, end) = self.choice_text();
             let nbody = self.rng.below(3);
@@ -1061,7 +1084,21 @@ impl<'a> Builder<'a> {
             } else {
                 self.forward_target(flow_idx)
             };
-            body.push(Stmt::Divert(next));
+            let next = match next {
+                // a stitch of this knot may be addressed by its bare name
+                Target::Named(n) if self.cfg.layout_variants && n.starts_with(&format!("{}.", plan.name)) && self.rng.chance(1, 2) => {
+                    Target::Named(n.split_once('.').unwrap().1.to_string())
+                }
+                other => other,
+            };
+            if self.cfg.layout_variants && self.rng.chance(1, 3) {
+                // "text -> target" on one line
+                let simple = self.rng.chance(1, 2);
+                let pieces = self.inline_pieces(false, simple);
+                body.push(Stmt::Line(pieces, Some(next)));
+            } else {
+                body.push(Stmt::Divert(next));
+            }
             if path.contains('.') {
                 self.meta.labels.push(path.clone());
             }
